@@ -2,18 +2,29 @@ from common import Ctx, RULES
 from legs import run_classified_leg
 
 PID = "C10"
-COQ_FILES = ["Model/Base.v", "Model/SigSpec.v"]
+COQ_FILES = ["Model/Base.v", "Model/SigSpec.v", "Gen/Tracer.v", "Model/Tracer.v", "Proofs/TracerProofs.v", "Properties/C10.v"]
 RULES[PID] = ("e2e leg: a debuggee with counting handlers for SIGINT/USR1/USR2/ALRM/CHLD/URG/VTALRM/PROF/WINCH/IO runs 3-6 rounds with a breakpoint per "
               "round; at every stop 0-3 distinct signals are sent with kill() (they become pending), followed by 1-12 stepi or directly by continue; "
               "signal stops are collected; at exit the debuggee prints its counters. Spec (decided in Coq): every counter equals the number of sends "
               "(0 for SIGINT), every non-quiet signal is reported once with the receiving thread, quiet ones never. Non-trivial: >= 2 signals sent or a "
-              "signal sent before a stepi run; distinct by case text.")
+              "signal sent before a stepi run; distinct by case text. acct leg: single-threaded handler-counting debuggee, 1-3 windows of 0-3 kill()s "
+              "followed by 0-10 stepi, then continue to exit; the same event list is run through the Coq model of the tracer (Model/Tracer.v, api_step over "
+              "the kernel model) and the model's deliveries and reports are compared with the printed counters and the reported signal stops (verdict 1 on "
+              "difference), the spec is evaluated on the same case (verdict 2). Non-trivial: at least one signal sent.")
 
 
 def classify(i, meta, v):
     if int(meta.get("max_pending", 0)) >= 2:
         return ("c10-e2e:multi-pending", True, "two or more signals pending for the thread at one resume")
     return ("c10-e2e:spec", True, "a single pending signal was lost, duplicated or misreported")
+
+
+def classify_acct(i, meta, v):
+    if int(meta.get("max_pending", 0)) >= 2:
+        return ("c10-e2e:multi-pending", True, "two or more signals pending for the thread at one resume")
+    if v >= 2:
+        return ("c10-acct:spec", True, "a single pending signal was lost, duplicated or misreported")
+    return ("c10-acct:model", False, "tracer model and implementation disagree on deliveries / reports for a history that satisfies the spec")
 
 
 def run(tier, seed):
@@ -27,4 +38,11 @@ def run(tier, seed):
         n = 30 if tier == "quick" else 400
         run_classified_leg(ctx, "c10-e2e", [seed, n, ctx.cases_dir, ctx.scratch],
                            "signals sent vs the debuggee's own handler counters vs reported signal stops", classify)
+        n = 40 if tier == "quick" else 600
+        run_classified_leg(ctx, "c10-acct", [seed, n, ctx.cases_dir, ctx.scratch],
+                           "tracer model (Model/Tracer.v) run on the same send/stepi/continue history vs handler counters and reported stops", classify_acct)
+    ctx.refuted += [
+        {"theorem": "C10_step_suppresses_refuted", "witness": "stepi reports SIGUSR1, the next stepi withholds it; delivered only at the next continue", "status": "model-level; delivery is late, not lost (counters match at exit)"},
+        {"theorem": "C10_signal_lost_refuted", "witness": "signal absorbed during a group stop on a thread standing on a breakpoint", "status": "model-level witness; covered by known finding c10-e2e:multi-pending family"},
+    ]
     return ctx.finish(["kernel: a signal pending for a stopped thread is reported at its next resume; standard signals do not queue (at most one instance of a kind is pending at a time in the generated histories)"])
